@@ -1,3 +1,5 @@
 # binary -> translation units (kept in sync with harness/registry.py)
 BINS := c08_scalars
 c08_scalars_OBJS := c08_scalars
+BINS += c20_numbers
+c20_numbers_OBJS := c20_numbers
